@@ -4,7 +4,8 @@ Wire-level model of the encoder (`/repo/encoder/encoder.go`: `encodeMessage`, `c
 `newMessageDefinition`, `encodeFileHeader`, `encodeCRC`, per-sequence `reset`; `/repo/encoder/lru.go`;
 `/repo/proto/proto_marshal.go`) and of the record framing of the decoder (`/repo/decoder/decoder.go`:
 `decodeFileHeader`, `decodeMessage`, `decodeMessageDefinition`, `decodeMessageData` as far as bytes are
-consumed and timestamps tracked, `decodeCRC`).
+consumed, timestamps tracked and field descriptions recorded, `decodeDeveloperFields` as far as bytes are consumed
+and the base type of the field description a developer field refers to is checked, `decodeCRC`).
 
 "Wire level": a field value is the byte string its `proto.Value` marshals to in the encoder's byte order
 (`Value.MarshalAppend`, modelled and proved in `FitModel/Value.lean` / C06) together with the value's
@@ -281,6 +282,8 @@ structure WRec where
   arch : Nat
   ts : Option Nat                 -- reconstructed timestamp of a compressed-timestamp record
   fields : List (FieldDef × Bytes)
+  /-- the bytes read for EVERY developer field definition, with or without field description; what ends up in
+  `mesg.DeveloperFields` is `devsKept` of them under the field descriptions known at that point -/
   devs : List (DevDef × Bytes)
   deriving DecidableEq, Repr, Inhabited
 
@@ -292,13 +295,63 @@ def takeFields : List FieldDef → Bytes → Except Err (List (FieldDef × Bytes
       | .ok (fs, rest) => .ok ((fd, bs.take fd.size) :: fs, rest)
       | .error e => .error e
 
-def takeDevs : List DevDef → Bytes → Except Err (List (DevDef × Bytes) × Bytes)
+/-! #### field descriptions (`d.fieldDescriptions`) and developer fields (`decodeDeveloperFields`) -/
+
+/-- what the decoder keeps of a `field_description` message as far as framing goes: (developer data index,
+field definition number, fit base type id) — `mesgdef.NewFieldDescription(&mesg)` -/
+abbrev Desc := Nat × Nat × Nat
+
+def mesgNumFieldDescription : Nat := 206
+def uint8Invalid : Nat := 255
+
+/-- the fields `decodeFields` appends to the message, by number: a field of size 0 is skipped ("Size is zero. Skip") -/
+def readFields (fs : List (FieldDef × Bytes)) : List (Nat × Bytes) :=
+  (fs.filter fun p => p.1.size != 0).map fun p => (p.1.num, p.2)
+
+/-- `vals[num].Uint8()` of `FieldDescription.Reset`: the LAST field with that number wins (`vals[num] = value` in a
+loop over the fields); none: the invalid value 255. The decoder's factory knows fields 0, 1, 2 of message 206 as plain
+one-byte fields (the standard factory; `Fit.Gen.Integ.fdFieldsPlain` is regenerated from the source): whatever base
+type and size the definition declares, the value is the FIRST BYTE of the field (size > 1 and not an array: "retrieve
+first array's value only"). -/
+def lastVal (vals : List (Nat × Bytes)) (num : Nat) : Nat :=
+  match (vals.filter fun p => p.1 = num).getLast? with
+  | some p => p.2.headD 0
+  | none => uint8Invalid
+
+/-- `decodeMessageData`: `case mesgnum.FieldDescription: d.fieldDescriptions = append(d.fieldDescriptions, …)` — after
+the fields of the message are decoded, BEFORE its developer fields are -/
+def noteDesc (descs : List Desc) (mesgNum : Nat) (fs : List (FieldDef × Bytes)) : List Desc :=
+  if mesgNum = mesgNumFieldDescription then
+    descs ++ [(lastVal (readFields fs) 0, lastVal (readFields fs) 1, lastVal (readFields fs) 2)]
+  else descs
+
+/-- the loop over `d.fieldDescriptions` in `decodeDeveloperFields`: the FIRST (oldest) description of the sequence with
+that developer data index and field definition number -/
+def findDesc (descs : List Desc) (dd : DevDef) : Option Desc :=
+  descs.find? fun d => d.1 = dd.idx ∧ d.2.1 = dd.num
+
+/-- `!fieldDesc.FitBaseTypeId.Valid()` for the description the developer field refers to (no description: the bytes
+are read and skipped, no error) -/
+def descInvalid (descs : List Desc) (dd : DevDef) : Bool :=
+  match findDesc descs dd with
+  | some d => !validBaseType d.2.2
+  | none => false
+
+/-- `decodeDeveloperFields` as far as bytes and errors go, field by field in order: a developer field whose field
+description carries an invalid base type ends the decoding (`errInvalidBaseType`, before any byte of it is read);
+otherwise its `size` bytes are read (with a description and size 0: nothing is read, the field is skipped) -/
+def takeDevs (descs : List Desc) : List DevDef → Bytes → Except Err (List (DevDef × Bytes) × Bytes)
   | [], bs => .ok ([], bs)
   | fd :: fds, bs =>
+    if descInvalid descs fd then .error .invalidBaseType else
     if bs.length < fd.size then .error .eof else
-      match takeDevs fds (bs.drop fd.size) with
+      match takeDevs descs fds (bs.drop fd.size) with
       | .ok (fs, rest) => .ok ((fd, bs.take fd.size) :: fs, rest)
       | .error e => .error e
+
+/-- the developer fields that end up in `mesg.DeveloperFields`: those with a field description and a size other than 0 -/
+def devsKept (descs : List Desc) (ds : List (DevDef × Bytes)) : List (DevDef × Bytes) :=
+  ds.filter fun p => (findDesc descs p.1).isSome && p.1.size != 0
 
 /-- little-endian value of a byte string (`value |= b[i] << (i*8)`) -/
 def asmLE : Bytes → Nat
@@ -326,9 +379,12 @@ structure DecState where
   defs : List (Nat × MesgDef)     -- local number ↦ live definition (association list, newest first)
   timestamp : Nat
   lastOff : Nat
+  descs : List Desc               -- `d.fieldDescriptions` of the sequence, oldest first
   deriving Repr, Inhabited
 
-def DecState.fresh : DecState := ⟨[], 0, 0⟩
+/-- state at the start of a sequence (`reset()` / `releaseTemporaryObjects()` after every `Decode`: definitions,
+timestamp state and field descriptions do not survive a sequence) -/
+def DecState.fresh : DecState := ⟨[], 0, 0, []⟩
 
 def DecState.lookup (s : DecState) (i : Nat) : Option MesgDef := (s.defs.find? (·.1 == i)).map (·.2)
 
@@ -392,10 +448,11 @@ def decodeRecord (tsKnown : Nat → Bool) (s : DecState) : Bytes → Except Err 
         | .error e => .error e
         | .ok (fs, bs1) =>
           let s2 := trackTs (tsKnown d.mesgNum) d.arch s1 fs
-          match takeDevs d.devs bs1 with
+          let descs := noteDesc s2.descs d.mesgNum fs
+          match takeDevs descs d.devs bs1 with
           | .error e => .error e
           | .ok (ds, bs2) =>
-            .ok (.data ⟨h, d.mesgNum, d.arch, ts, fs, ds⟩, s2, bs2)
+            .ok (.data ⟨h, d.mesgNum, d.arch, ts, fs, ds⟩, { s2 with descs := descs }, bs2)
 
 /-- `decodeMessages`: records until `dataSize` bytes are consumed (the last record may overrun it, as in
 the code: the loop condition is tested between records only). `fuel` bounds the number of records.
@@ -476,5 +533,26 @@ def decodeStream (tsKnown : Nat → Bool) (checksum : Bool) : Nat → Bool → B
     | (items, .ok (f, rest)) =>
       let (evs, e) := decodeStream tsKnown checksum fuel false rest
       (items.map .item ++ [.seq f] ++ evs, e)
+
+/-! ### what the round trip needs of the written messages (decidable; see FitProps/C01.lean)
+
+The decoder refuses a developer field whose field description — the FIRST `field_description` message of the sequence
+with its developer data index and field number, the message itself included — carries an invalid base type
+(`errInvalidBaseType`). The message validator of the encoder never lets such a developer field through (it is dropped
+as invalid or the message is rejected: `valueIntegrity` against the description's base type); a pass-through validator
+does. `msgsDescOK [] ms`: no developer field of `ms` refers to such a description, read as the DECODER reads it. -/
+
+/-- the wire fields of a written message as the decoder takes them (definition triple, bytes) -/
+def wireFields (m : WMsg) : List (FieldDef × Bytes) :=
+  m.fields.map fun f => (⟨f.num, f.data.length % 256, f.bt⟩, f.data)
+
+def devsDescOK (descs : List Desc) (devs : List WDev) : Bool :=
+  devs.all fun d => !descInvalid descs ⟨d.num, d.data.length % 256, d.idx⟩
+
+def msgsDescOK : List Desc → List WMsg → Bool
+  | _, [] => true
+  | descs, m :: ms =>
+    let descs' := noteDesc descs m.num (wireFields m)
+    devsDescOK descs' m.devs && msgsDescOK descs' ms
 
 end Fit.Wire
